@@ -103,7 +103,7 @@ def oracle_distribute(ctx, rng, n):
         n_asm = rng.randint(3, 14)
         ng = rng.randint(1, min(4, n_asm))
         power = np.array(sorted([rng.uniform(1e6, 6e6) for _ in range(n_asm)], reverse=True))
-        o = stub(ng, bulk=700.0, dp_limit=rng.choice([None, None, rng.uniform(0.05, 0.8)]))
+        o = stub(ng, bulk=700.0, dp_limit=rng.choice([None, rng.uniform(0.05, 0.8), rng.uniform(0.02, 0.3)]))
         # groups: contiguous split of the sorted list
         cuts = sorted(rng.sample(range(1, n_asm), ng - 1)) if ng > 1 else []
         labels = np.zeros(n_asm)
@@ -113,13 +113,23 @@ def oracle_distribute(ctx, rng, n):
         o._power = np.column_stack([np.arange(n_asm), power])
         o.t_in = 623.15
         o.coolant = dassh.Material('sodium')
-        # parametric sweep of one assembly type: columns [power/flow (MW per kg/s), -, flow, dp (MPa), ..., T_opt]
-        fl = np.linspace(2.0, 60.0, 25)
-        pf = 3.0 / fl
-        dp = 1e-4 * fl ** 1.8
-        topt = 623.15 + 900.0 * pf
-        o._parametric = {'data': [np.column_stack([pf, np.zeros_like(fl), fl, dp, topt])],
-                         'asm_ids': np.column_stack([np.arange(n_asm), np.zeros(n_asm, dtype=int)]).astype(int)}
+        # parametric sweeps of 1-3 assembly types: columns [power/flow (MW per kg/s), -, flow (kg/s), dp (Pa), T_opt]; the types
+        # differ in their pressure-drop curves and are mixed within the groups
+        n_typ = rng.choice([1, 2, 2, 3])
+        curves = []
+        for ti in range(n_typ):
+            # as Orificing._parametric builds them: power-to-flow ratio ascending (flow descending), pressure drop in Pa
+            pf = np.geomspace(0.05, 1.0, 25)
+            fl_t = rng.uniform(2.0, 5.0) / pf
+            dp = rng.uniform(150.0, 600.0) * fl_t ** rng.uniform(1.7, 2.0)
+            topt = 623.15 + rng.uniform(700.0, 1100.0) * pf
+            curves.append(np.column_stack([pf, np.zeros_like(pf), fl_t, dp, topt]))
+        typ_of = np.array([rng.randrange(n_typ) for _ in range(n_asm)], dtype=int)
+        o._parametric = {'data': curves, 'asm_ids': np.column_stack([np.arange(n_asm), typ_of]).astype(int)}
+        if o.orifice_input['pressure_drop_limit']:
+            # put the limit where it matters: around the pressure drop of the average assembly flow
+            m_avg = dassh.Q_equals_mCdT(np.sum(power), o.t_in, o.coolant, t_out=700.0) / n_asm
+            o.orifice_input['pressure_drop_limit'] = float(np.interp(m_avg, curves[0][::-1, 2], curves[0][::-1, 3])) * 1e-6 * rng.uniform(0.8, 1.8)
         o._dp_limit = np.zeros(ng)
         o._opt_col = 4
         try:
@@ -135,9 +145,20 @@ def oracle_distribute(ctx, rng, n):
             mg = m[labels == g]
             if np.ptp(mg) > 1e-12 * max(1.0, abs(mg[0])):
                 ctx.violation("c20-equal-flow", "members of group %d receive different flow rates" % g)
-        if o.orifice_input['pressure_drop_limit']:
-            m_lim = float(np.interp(o.orifice_input['pressure_drop_limit'] * 1e6, dp[::-1] * 0 + dp[::-1], fl[::-1])) \
-                if False else None
+        lim = o.orifice_input['pressure_drop_limit']
+        if lim:
+            # every group but the last (which takes the remainder): no member exceeds the limit on ITS OWN type's curve
+            for g in range(ng - 1):
+                for ai in np.where(labels == g)[0]:
+                    dp_a = float(np.interp(m[ai], curves[typ_of[ai]][::-1, 2], curves[typ_of[ai]][::-1, 3])) * 1e-6
+                    if dp_a > lim * (1 + 1e-9):
+                        ctx.violation("c20-dp-limit", "assembly %d (type %d, group %d of %d) gets %.6g kg/s: pressure drop %.6g MPa exceeds "
+                                      "the limit %.6g MPa" % (ai, typ_of[ai], g, ng, m[ai], dp_a, lim),
+                                      power=power.tolist(), labels=labels.tolist(), types=typ_of.tolist(), flows=m.tolist(), limit=lim)
+                        break
+            ctx.count("distribute_with_limit")
+            if o._dp_limit.any():
+                ctx.count("distribute_limit_active")
         ctx.count("distribute_ok")
 
 
@@ -147,7 +168,7 @@ def run(ctx):
                 "real Orificing._group / distribute on stub instances; non-trivial = one list/group-count pair")
     ctx.prove("Dassh.Props.C20")
     correspondence_and_oracle(ctx, rng, 1200 if ctx.thorough else 250)
-    oracle_distribute(ctx, rng, 60 if ctx.thorough else 15)
+    oracle_distribute(ctx, rng, 200 if ctx.thorough else 50)
     ctx.nontrivial = ctx.evals
     ctx.traces = ctx.evals
     ctx.trusted += ["hand model lean/Dassh/Model/Orifice.lean tied to Orificing._group by differential correspondence "
